@@ -111,15 +111,17 @@ func TestMain(m *testing.M) {
 	klog.SetOutput(io.Discard)
 	monitoring.SetMetricFactory(recorder)
 	loadKnown()
-	if os.Getenv("VERIF_CHILD") != "" {
-		childMain()
-		return
+	if mode := os.Getenv("VERIF_CHILD"); mode != "" {
+		if f := childModes[mode]; f != nil {
+			f()
+		}
+		os.Exit(2)
 	}
 	os.Exit(m.Run())
 }
 
-// childMain is filled in by the crash machinery (C06).
-var childMain = func() { os.Exit(2) }
+// childModes: entry points for child processes of this binary (crash children for C06, watchdogged cases for C19).
+var childModes = map[string]func(){}
 
 type WorkerViolation struct {
 	Violation
